@@ -38,6 +38,8 @@ CONSTANTS
   VTypes,      \* subset of {"scalar", "vector"}
   Meshes,      \* subset of {"unstructured", "structured"}
   KTypes,      \* kriging flavours {"simple", "ordinary", "universal"} ("-" for other kinds)
+  NSpells,     \* how the normalizer argument is spelled: "instance" | "class" (a normalizer is
+               \* configured), "none" (None) | "baseclass" (the identity class Normalizer)
   MaxCalls,    \* number of generating calls in a history
   MaxTrans,    \* number of transformations in a history
   Methods1,    \* method variants available to the first transformation
@@ -95,7 +97,7 @@ NoRec == [op |-> "-", pp |-> FALSE, st |-> "-", only |-> FALSE, src |-> "-", met
                              \* field must stay exactly as it is
 NoChk == [srcE |-> Absent, data |-> Absent]
 
-Calls == Len(SelectSeq(hist, LAMBDA r : r.op \in {"call", "getmean", "vario"}))
+Calls == Len(SelectSeq(hist, LAMBDA r : r.op \in {"call", "getmean", "vario", "sibling"}))
 Trans == Len(SelectSeq(hist, LAMBDA r : r.op = "transform"))
 
 (* chk: the source entry and the data handed to the array function by the last transformation
@@ -148,6 +150,17 @@ GetMean(pp) ==
      IN  Step(store, [NoRec EXCEPT !.op = "getmean", !.pp = pp,
                                    !.status = IF none THEN "none" ELSE "ok",
                                    !.res = IF none THEN Absent ELSE Both(t)])
+
+(* Independence of objects.  A normalizer handed over as a CLASS (or None) stands for a new
+   default-parameter normalizer of THIS object.  A sibling object built with the same spelling
+   whose normalizer is then changed (parameters assigned: how = "set"; fitted to data by the
+   library, fit_normalizer=True: how = "fit") has no documented effect on this object: nothing
+   stored changes and every later result is the same documented term, evaluated with the
+   parameters this object was configured with. *)
+Sibling(how) ==
+  /\ Kind \in {"Field", "SRF", "Krige", "CondSRF"}
+  /\ cfg.nspell \in {"class", "baseclass"}
+  /\ Step(store, [NoRec EXCEPT !.op = "sibling", !.src = how])
 
 (* CondSRF: field = PostProcess(raw kriging field + scaled random field); at the conditioning
    points the kriging variance and therefore the random part vanish *)
@@ -219,8 +232,9 @@ Transform(m, src, st, process, keepMean) ==
                [srcE |-> srcE, data |-> data])
 
 -----------------------------------------------------------------------------
-Cfgs == [mean : MeanKinds, norm : NormKinds, trend : TrendKinds, vtype : VTypes, mesh : Meshes,
-         ktype : KTypes]
+Cfgs == {cf \in [mean : MeanKinds, norm : NormKinds, trend : TrendKinds, vtype : VTypes, mesh : Meshes,
+                  ktype : KTypes, nspell : NSpells] :
+            IF cf.norm THEN cf.nspell \in {"instance", "class"} ELSE cf.nspell \in {"none", "baseclass"}}
 
 Init == /\ cfg \in Cfgs
         /\ store = <<>>
@@ -235,6 +249,9 @@ Next ==
         \/ \E pp \in BOOLEAN, st \in StoreArgs, only \in BOOLEAN : KrigeCall(pp, st, only)
         \/ \E pp \in BOOLEAN : GetMean(pp)
         \/ VarioCall
+        \* (a sibling only matters before a later call)
+        \/ /\ Calls + 1 < MaxCalls
+           /\ \E how \in {"set", "fit"} : Sibling(how)
   \/ /\ Calls = MaxCalls /\ Trans < MaxTrans
      /\ \E m \in (IF Trans = 0 THEN Methods1 ELSE Methods2), fl \in Flags,
            st \in {"T", "F", IF Trans = 0 THEN "alt" ELSE "alt2"} :
